@@ -1583,7 +1583,10 @@ else:
       __contains__.__doc__ = dict.__contains__.__doc__
       def __setitem__(self, key, value): #XXX: maintains 'history' of values
           sql = "insert into %s values(?,?)" % self.__state__['id']
-          self._engine.execute(sql, (key,value))
+          try: self._engine.execute(sql, (key,value))
+          except: # don't leave the connection inside a transaction
+              self._conn.rollback()
+              raise
           self._conn.commit()
           return
       __setitem__.__doc__ = dict.__setitem__.__doc__
@@ -1683,7 +1686,10 @@ else:
               if not L: raise KeyError(key)
               _value = value[0]
           sql = "delete from %s where argstr = ?" % self.__state__['id']
-          self._engine.execute(sql, (key,))
+          try: self._engine.execute(sql, (key,))
+          except: # don't leave the connection inside a transaction
+              self._conn.rollback()
+              raise
           self._conn.commit()
           return _value 
       pop.__doc__ = dict.pop.__doc__
